@@ -34,7 +34,9 @@ type Event struct {
 
 // Env carries the recorder log and knobs shared by all callbacks of one built schema.
 type Env struct {
-	Log []Event
+	// Sentinels: the issue values of "sentinel" complex tests, by code (one object per built schema)
+	Sentinels map[string]*z.ZogIssue
+	Log       []Event
 	// Silent: callbacks do not record (the Env is then safe to share between goroutines).
 	Silent    bool
 	WatchKeys []string
@@ -275,9 +277,57 @@ func (e *Env) coercer(n *Node) conf.CoercerFunc {
 	}
 }
 
+// complexTest builds a "func" test the way the documentation writes complex tests: a z.Test whose Func reports through
+// ctx.AddIssue. The predicate is evaluated (and logged) exactly like a bool test's.
+func (e *Env) complexTest(n *Node, idx int, ts TestSpec) z.Test {
+	pred := e.testFunc(n, idx, ts.Str)
+	o := ts.Opts
+	return z.Test{Func: func(val any, ctx z.Ctx) {
+		if pred(val, ctx) {
+			return
+		}
+		var is *z.ZogIssue
+		switch ts.Complex {
+		case "ctx":
+			is = ctx.Issue().SetCode(o.Code)
+		case "hand":
+			is = &z.ZogIssue{Code: o.Code}
+		case "sentinel":
+			// one issue value kept by the user next to the schema (like a sentinel error) and reported wherever the
+			// predicate fails; it carries its message (nothing has to fill it in)
+			if e.Sentinels == nil {
+				e.Sentinels = map[string]*z.ZogIssue{}
+			}
+			if e.Sentinels[o.Code] == nil {
+				e.Sentinels[o.Code] = &z.ZogIssue{Code: o.Code, Message: "sentinel issue " + o.Code}
+			}
+			ctx.AddIssue(e.Sentinels[o.Code])
+			return
+		case "handpath":
+			is = &z.ZogIssue{Code: o.Code, Path: o.Path, Value: val}
+		default:
+			panic("model: complex test flavour " + ts.Complex)
+		}
+		if o.Msg != "" {
+			is.SetMessage(o.Msg)
+		}
+		if o.HasParams {
+			m := map[string]any{}
+			for k, v := range o.Params {
+				m[k] = v
+			}
+			is.SetParams(m)
+		}
+		ctx.AddIssue(is)
+	}}
+}
+
 // funcTestValue builds a "func" test the way the documentation's reusable tests are used: one z.TestFunc value made
 // without options, copied, and the copy specialised by assigning its fields before it is handed to schema.Test.
 func (e *Env) funcTestValue(n *Node, idx int, ts TestSpec) z.Test {
+	if ts.Complex != "" {
+		return e.complexTest(n, idx, ts)
+	}
 	shared := z.TestFunc("", e.testFunc(n, idx, ts.Str))
 	t := shared
 	o := ts.Opts
@@ -402,7 +452,7 @@ func buildNumber[T number](e *Env, n *Node, s *z.NumberSchema[T]) *z.NumberSchem
 		case "oneof":
 			s.OneOf(own(e, convList[T](ts.Args)), o...)
 		case "func":
-			if ts.AsValue {
+			if ts.AsValue || ts.Complex != "" {
 				s.Test(e.funcTestValue(n, i, ts))
 			} else {
 				s.TestFunc(e.testFunc(n, i, ts.Str), o...)
@@ -507,7 +557,7 @@ func build(n *Node, e *Env) (z.ZogSchema, reflect.Type) {
 		for i, ts := range n.Tests {
 			o := e.opts(ts.Opts)
 			if ts.Name == "func" {
-				if ts.AsValue {
+				if ts.AsValue || ts.Complex != "" {
 					s.Test(e.funcTestValue(n, i, ts))
 				} else {
 					s.TestFunc(e.testFunc(n, i, ts.Str), o...)
@@ -589,7 +639,7 @@ func build(n *Node, e *Env) (z.ZogSchema, reflect.Type) {
 			case "eq":
 				s.EQ(ts.Arg.S == "true")
 			case "func":
-				if ts.AsValue {
+				if ts.AsValue || ts.Complex != "" {
 					s.Test(e.funcTestValue(n, i, ts))
 				} else {
 					s.TestFunc(e.testFunc(n, i, ts.Str), e.opts(ts.Opts)...)
@@ -623,7 +673,7 @@ func build(n *Node, e *Env) (z.ZogSchema, reflect.Type) {
 			case "eq":
 				s.EQ(mustTime(ts.Arg.S), o...)
 			case "func":
-				if ts.AsValue {
+				if ts.AsValue || ts.Complex != "" {
 					s.Test(e.funcTestValue(n, i, ts))
 				} else {
 					s.TestFunc(e.testFunc(n, i, ts.Str), o...)
@@ -667,7 +717,7 @@ func build(n *Node, e *Env) (z.ZogSchema, reflect.Type) {
 					s.Contains(reflect.ValueOf(ts.Arg.Go()).Convert(et).Interface(), o...)
 				}
 			case "func":
-				if ts.AsValue {
+				if ts.AsValue || ts.Complex != "" {
 					s.Test(e.funcTestValue(n, i, ts))
 				} else {
 					s.TestFunc(e.testFunc(n, i, ts.Str), o...)
@@ -699,7 +749,7 @@ func build(n *Node, e *Env) (z.ZogSchema, reflect.Type) {
 				if ts.Name != "func" {
 					panic("model: struct test " + ts.Name)
 				}
-				if ts.AsValue {
+				if ts.AsValue || ts.Complex != "" {
 					s.Test(e.funcTestValue(n, i, ts))
 				} else {
 					s.TestFunc(e.testFunc(n, i, ts.Str), e.opts(ts.Opts)...)
